@@ -52,5 +52,6 @@ BodiesLen == {<<>>, <<109>>, <<120, 120, 109>>}      \* "", "m", "xxm"
 BodiesMixed == {<<>>, <<109>>, <<120>>, <<120, 120, 120>>}
 BodiesCand == {<<109>>, <<120>>, <<99>>}             \* incl. a false candidate line "c"
 BodiesCR == {<<109>>, <<120>>, <<13>>, <<120, 13>>}   \* bare CR inside lines
+BodiesLFinside == {<<109>>, <<120, 10, 109>>, <<10>>, <<120, 10>>}   \* NUL-terminated lines that contain \n
 BodiesNul == {<<109>>, <<120>>, <<0>>, <<109, 0>>, <<0, 109>>}
 =============================================================================
